@@ -203,65 +203,19 @@ func TestVerifRtx(t *testing.T) {
 	}
 	defer func() { _ = progress.Close() }()
 
-	// ---- a receiver with one rid track and a repair stream, both fed by the driver ----
-	transportAPI := NewAPI(WithSettingEngine(SettingEngine{}))
-	receiverAPI := NewAPI()
-	receiver, err := receiverAPI.NewRTPReceiver(RTPCodecTypeVideo, &DTLSTransport{api: transportAPI})
-	if err != nil {
-		t.Fatal(err)
-	}
-	receiver.configureReceive(RTPReceiveParameters{Encodings: []RTPDecodingParameters{{
-		RTPCodingParameters: RTPCodingParameters{RID: "rid", SSRC: vrPrimarySSRC, RTX: RTPRtxParameters{SSRC: vrRtxSSRC}},
-	}}})
-	var primaryReads atomic.Int64
-	sentinel := []byte{0x80, vrPrimaryPT, 0xFF, 0xFE, 0, 0, 0, 0, 0, 0, 0x04, 0x57, 0xAA}
-	primary := interceptor.RTPReaderFunc(func(b []byte, a interceptor.Attributes) (int, interceptor.Attributes, error) {
-		primaryReads.Add(1)
-		return copy(b, sentinel), a, nil
-	})
-	params := RTPParameters{Codecs: []RTPCodecParameters{{
-		RTPCodecCapability: RTPCodecCapability{MimeType: MimeTypeVP8}, PayloadType: vrPrimaryPT,
-	}}}
-	track, err := receiver.receiveForRid("rid", params, &interceptor.StreamInfo{SSRC: vrPrimarySSRC}, nil, primary,
-		false, nil, nil, nil)
-	if err != nil {
-		t.Fatal(err)
-	}
-	close(receiver.received)
-	defer func() { _ = receiver.Stop() }()
-
-	ready := make(chan struct{})
-	feed := make(chan []byte)
-	repair := interceptor.RTPReaderFunc(func(b []byte, a interceptor.Attributes) (int, interceptor.Attributes, error) {
-		ready <- struct{}{} // the repair goroutine is done with the previous packet and asks for the next
-		p, ok := <-feed
-		if !ok {
-			return 0, a, io.EOF
+	// ---- receivers with one rid track and a repair stream, both fed by the driver: one learns the primary
+	// stream first (the usual order), the other sees the repair stream (rsid) before the primary one ----
+	rigs := []*vrRig{vrNewRig(t, false), vrNewRig(t, true)}
+	defer func() {
+		for _, r := range rigs {
+			close(r.feed)
+			_ = r.receiver.Stop()
 		}
-		return copy(b, p), a, nil
-	})
-	if err = receiver.receiveForRtx(vrRtxSSRC, "", &interceptor.StreamInfo{SSRC: vrRtxSSRC}, nil, repair, true, nil, nil); err != nil {
-		t.Fatal(err)
-	}
-	waitReady := func(what string) {
-		select {
-		case <-ready:
-		case <-time.After(30 * time.Second):
-			t.Fatalf("repair reader did not come back for the next packet (%s)", what)
-		}
-	}
-	waitReady("start")
-	defer close(feed)
-
-	// the original always precedes its retransmission: one primary packet first (it also fixes
-	// the track's payload type, which the rewrite uses)
+	}()
 	buf := make([]byte, receiveMTU)
-	if n, _, rerr := track.Read(buf); rerr != nil || n != len(sentinel) {
-		t.Fatalf("primary read: n=%d err=%v", n, rerr)
-	}
-	if track.PayloadType() != vrPrimaryPT || track.SSRC() != vrPrimarySSRC {
-		t.Fatalf("track not set up: pt=%d ssrc=%d", track.PayloadType(), track.SSRC())
-	}
+	rig := rigs[0]
+	track, feed, primaryReads := rig.track, rig.feed, rig.primaryReads
+	waitReady := rig.waitReady
 
 	// one group = packets that are all on the repair stream before the application reads the first
 	// of them (a retransmission burst); most groups have one packet, every fourth has up to three
@@ -281,7 +235,7 @@ func TestVerifRtx(t *testing.T) {
 			"lay":  vkM{"cc": v.CC, "x": v.X, "prof": v.Prof, "xl": v.XL, "pad": v.Pad, "pl": v.PL, "plmax": v.PLMax, "m": v.M, "fill": v.Fill},
 			"in":   vrView(pkt),
 			"prim": vkM{"pt": vrPrimaryPT, "ssrc": fmt.Sprint(vrPrimarySSRC)}, // what the primary stream carries
-			"err":  "", "n": n, "burst": vkM{"pos": pos, "size": size},
+			"err":  "", "n": n, "burst": vkM{"pos": pos, "size": size}, "order": rig.order,
 		}
 		if rerr != nil {
 			line["err"] = rerr.Error()
@@ -313,6 +267,11 @@ func TestVerifRtx(t *testing.T) {
 		if k%200 == 0 || (k > 0 && k/200 != (k-1)/200) {
 			tr.Reset(vecs[k].ID)
 		}
+		rig = rigs[0]
+		if (k/8)%5 == 2 {
+			rig = rigs[1]
+		}
+		track, feed, primaryReads, waitReady = rig.track, rig.feed, rig.primaryReads, rig.waitReady
 		size := 1
 		if (k/4)%4 == 3 {
 			// only packets that carry an OSN can wait in the queue (shorter ones are dropped at once)
@@ -344,4 +303,87 @@ func TestVerifRtx(t *testing.T) {
 		}
 		k += size
 	}
+}
+
+// vrRig is one receiver under test with its driver-side ends.
+type vrRig struct {
+	receiver     *RTPReceiver
+	track        *TrackRemote
+	feed         chan []byte
+	ready        chan struct{}
+	primaryReads *atomic.Int64
+	order        string
+	waitReady    func(what string)
+}
+
+func vrNewRig(t *testing.T, repairFirst bool) *vrRig {
+	t.Helper()
+	transportAPI := NewAPI(WithSettingEngine(SettingEngine{}))
+	receiverAPI := NewAPI()
+	receiver, err := receiverAPI.NewRTPReceiver(RTPCodecTypeVideo, &DTLSTransport{api: transportAPI})
+	if err != nil {
+		t.Fatal(err)
+	}
+	r := &vrRig{receiver: receiver, feed: make(chan []byte), ready: make(chan struct{}), primaryReads: &atomic.Int64{}, order: "primary-first"}
+	sentinel := []byte{0x80, vrPrimaryPT, 0xFF, 0xFE, 0, 0, 0, 0, 0, 0, 0x04, 0x57, 0xAA}
+	primary := interceptor.RTPReaderFunc(func(b []byte, a interceptor.Attributes) (int, interceptor.Attributes, error) {
+		r.primaryReads.Add(1)
+		return copy(b, sentinel), a, nil
+	})
+	repair := interceptor.RTPReaderFunc(func(b []byte, a interceptor.Attributes) (int, interceptor.Attributes, error) {
+		r.ready <- struct{}{} // the repair goroutine is done with the previous packet and asks for the next
+		p, ok := <-r.feed
+		if !ok {
+			return 0, a, io.EOF
+		}
+		return copy(b, p), a, nil
+	})
+	params := RTPParameters{Codecs: []RTPCodecParameters{{
+		RTPCodecCapability: RTPCodecCapability{MimeType: MimeTypeVP8}, PayloadType: vrPrimaryPT,
+	}}}
+	r.waitReady = func(what string) {
+		select {
+		case <-r.ready:
+		case <-time.After(30 * time.Second):
+			t.Fatalf("repair reader did not come back for the next packet (%s)", what)
+		}
+	}
+	if repairFirst {
+		// a rid track announced without SSRCs: the repair stream (rsid) shows up before the primary one
+		r.order = "repair-first"
+		receiver.configureReceive(RTPReceiveParameters{Encodings: []RTPDecodingParameters{{
+			RTPCodingParameters: RTPCodingParameters{RID: "rid"},
+		}}})
+		close(receiver.received)
+		if err = receiver.receiveForRtx(0, "rid", &interceptor.StreamInfo{SSRC: vrRtxSSRC}, nil, repair, true, nil, nil); err != nil {
+			t.Fatal(err)
+		}
+		if r.track, err = receiver.receiveForRid("rid", params, &interceptor.StreamInfo{SSRC: vrPrimarySSRC}, nil, primary,
+			true, nil, nil, nil); err != nil {
+			t.Fatal(err)
+		}
+	} else {
+		receiver.configureReceive(RTPReceiveParameters{Encodings: []RTPDecodingParameters{{
+			RTPCodingParameters: RTPCodingParameters{RID: "rid", SSRC: vrPrimarySSRC, RTX: RTPRtxParameters{SSRC: vrRtxSSRC}},
+		}}})
+		if r.track, err = receiver.receiveForRid("rid", params, &interceptor.StreamInfo{SSRC: vrPrimarySSRC}, nil, primary,
+			false, nil, nil, nil); err != nil {
+			t.Fatal(err)
+		}
+		close(receiver.received)
+		if err = receiver.receiveForRtx(vrRtxSSRC, "", &interceptor.StreamInfo{SSRC: vrRtxSSRC}, nil, repair, true, nil, nil); err != nil {
+			t.Fatal(err)
+		}
+	}
+	r.waitReady("start")
+	// the original always precedes its retransmission: one primary packet first (it also fixes
+	// the track's payload type, which the rewrite uses)
+	b := make([]byte, receiveMTU)
+	if n, _, rerr := r.track.Read(b); rerr != nil || n != len(sentinel) {
+		t.Fatalf("primary read: n=%d err=%v", n, rerr)
+	}
+	if r.track.PayloadType() != vrPrimaryPT || r.track.SSRC() != vrPrimarySSRC {
+		t.Fatalf("track not set up: pt=%d ssrc=%d", r.track.PayloadType(), r.track.SSRC())
+	}
+	return r
 }
